@@ -14,6 +14,8 @@ import (
 type WrapT struct {
 	lime.Transport
 	AfterRecv func(n int, err error)
+	// BeforeSend may fail a Send transiently: the error is returned and nothing is written
+	BeforeSend func() error
 	mu        sync.Mutex
 	n         int
 }
@@ -28,6 +30,15 @@ func (w *WrapT) Receive(ctx context.Context) (lime.VerifEnvelope, error) {
 		w.AfterRecv(n, err)
 	}
 	return e, err
+}
+
+func (w *WrapT) Send(ctx context.Context, e lime.VerifEnvelope) error {
+	if f := w.BeforeSend; f != nil {
+		if err := f(); err != nil {
+			return err
+		}
+	}
+	return w.Transport.Send(ctx, e)
 }
 
 // QueueListener is a TransportListener that hands out the transports offered to it.
